@@ -315,7 +315,7 @@ fn prepare(s: &Scenario) -> Check<Prepared> {
             }
             Prepared { entries: vec![], files, inserts: vec![] }
         }
-        Scenario::Sorter { kind, src, .. } => Prepared { entries: vec![], files: vec![], inserts: c07::prepared(*kind, src) },
+        Scenario::Sorter { kind, src, .. } => Prepared { entries: vec![], files: vec![], inserts: c07::prepared(*kind, false, src) },
     })
 }
 
